@@ -428,10 +428,45 @@ func runCase(id int, d Defaults, c *Case) {
 		return strings.Join(ps, "|")
 	}
 	if prop == "C14" {
-		hx.Printf("sobs %d cells=%s resw=%s gmw=%s assume=%s stats=%s labels=%s colpos=%s hdrcfg=%s order=%s rawcells=%s bin=%s\n", id, sortJoin(cellParts), sortJoin(reswParts), sortJoin(gmParts), sortJoin(asParts), statBad, strings.ReplaceAll(labelsCheck(c, run), " ", "_"), strings.ReplaceAll(colPosCheck(run), " ", "_"), strings.ReplaceAll(hdrCfgCheck(run, s), " ", "_"), orderField(orderParts, specsOK), rawCellsDigest(run, s, specsOK), binState)
+		hx.Printf("sobs %d cells=%s resw=%s gmw=%s assume=%s stats=%s fixed=%s units=%s labels=%s colpos=%s hdrcfg=%s order=%s rawcells=%s bin=%s\n", id, sortJoin(cellParts), sortJoin(reswParts), sortJoin(gmParts), sortJoin(asParts), statBad, okOr(run.fixedBad), unitsCheck(c, run), strings.ReplaceAll(labelsCheck(c, run), " ", "_"), strings.ReplaceAll(colPosCheck(run), " ", "_"), strings.ReplaceAll(hdrCfgCheck(run, s), " ", "_"), orderField(orderParts, specsOK), rawCellsDigest(run, s, specsOK), binState)
 	} else {
+		// the residue warning of every cell against the specification (as in C14): with more than a
+		// handful of residues per cell it must still name exactly the varying fields
+		hx.Printf("sobs %d resw=%s\n", id, sortJoin(reswParts))
 		schedCase(id, dir, c, args, run)
 	}
+}
+
+func okOr(s string) string {
+	if s == "" {
+		return "ok"
+	}
+	return strings.ReplaceAll(s, " ", "_")
+}
+
+// unitsCheck: for the generated "wide" cases the set of units that must survive the -filter is
+// known by construction (Case.WantUnits); the tables of the output must be exactly those units.
+func unitsCheck(c *Case, run *Run) string {
+	if c.WantUnits == nil {
+		return "ok"
+	}
+	got := map[string]bool{}
+	for _, t := range run.tables.Tables {
+		got[t.Unit] = true
+	}
+	want := map[string]bool{}
+	for _, u := range c.WantUnits {
+		want[u] = true
+		if !got[u] {
+			return "missing-" + u
+		}
+	}
+	for u := range got {
+		if !want[u] {
+			return "unexpected-" + u
+		}
+	}
+	return "ok"
 }
 
 // orderField: tables in output order, each with its rows and columns in output order (ids of
